@@ -356,19 +356,26 @@ class SATEncoder:
         max_end = max(s.ub + d for s, d in zip(starts, durations))
 
         for t in range(min_start, max_end):
-            active_lits = []
-            active_demands = []
+            # Start literals that make task i cover time t (a task has exactly one start, so subsets are chosen per task)
+            active: list[tuple[int, list[int]]] = []
             for i in range(n):
-                for s in range(max(starts[i].lb, t - durations[i] + 1), min(starts[i].ub, t) + 1):
-                    if s in starts[i].bool_vars and s <= t < s + durations[i]:
-                        active_lits.append(starts[i].bool_vars[s])
-                        active_demands.append(demands[i])
+                lits = [
+                    starts[i].bool_vars[s]
+                    for s in range(max(starts[i].lb, t - durations[i] + 1), min(starts[i].ub, t) + 1)
+                    if s in starts[i].bool_vars and s <= t < s + durations[i]
+                ]
+                if lits:
+                    active.append((demands[i], lits))
 
-            if not active_lits:
-                continue
-
-            if len(active_lits) <= 10:
-                self._encode_capacity_constraint(active_lits, active_demands, capacity)
+            for size in range(1, len(active) + 1):
+                for subset in combinations(active, size):
+                    load = sum(d for d, _ in subset)
+                    if load <= capacity:
+                        continue
+                    if any(load - d > capacity for d, _ in subset):
+                        continue  # a smaller subset already overloads: covered there
+                    for choice in product(*[lits for _, lits in subset]):
+                        self._clauses.append([-lit for lit in choice])
 
     def _encode_capacity_constraint(self, lits: list[int], demands: list[int], capacity: int) -> None:
         """Encode sum constraint: if all lits true, demands sum must <= capacity."""
